@@ -87,16 +87,33 @@ def build(spec, stream, start, example_rows=0):
     raise ValueError(k)
 
 
-def run_pipeline(spec, batches, start, example_rows=0, snapshot=True):
-    """-> list of (state snapshot, result) per batch"""
+class _ConsumerFailed(Exception):
+    pass
+
+
+def run_pipeline(spec, batches, start, example_rows=0, snapshot=True, fail_at=()):
+    """-> list of (state snapshot, result) per batch.  fail_at: batch numbers at which a second consumer,
+    attached after the recorder, raises; the producer catches that and carries on (the recorder has the
+    checkpoint of that batch, so the run must continue from exactly that state)"""
     from streamz import Stream
     stream = Stream()
     out, with_state = build(spec, stream, start, example_rows)
     L = out.stream.sink_to_list()
     res = []
+    if fail_at:
+        seen = [0]
+
+        def alert(v):
+            seen[0] += 1
+            if seen[0] - 1 in fail_at:
+                raise _ConsumerFailed()
+        out.stream.sink(alert)
     for df in batches:
         n0 = len(L)
-        stream.emit(df)
+        try:
+            stream.emit(df)
+        except _ConsumerFailed:
+            pass
         new = L[n0:]
         if len(new) != 1:
             res.append((COUNT, len(new)))
@@ -165,7 +182,7 @@ def evaluate(prop, sc, want_trace=False):
     try:
         # by_reference: the emitted state objects are kept as they are (a sink_to_list), the
         # uninterrupted run goes on, and the restart uses them afterwards
-        base = run_pipeline(spec, batches, None, ex_rows, snapshot=not by_ref)
+        base = run_pipeline(spec, batches, None, ex_rows, snapshot=not by_ref, fail_at=tuple(sc.get('consumer_fails_at', ())))
     except Exception as e:     # noqa
         # the uninterrupted run itself failing is not this property's business
         out.status = 'base_failed:%s' % type(e).__name__
@@ -242,6 +259,8 @@ def evaluate(prop, sc, want_trace=False):
         out.probes['non_empty_example'] = 1
     if by_ref:
         out.probes['state_kept_by_reference'] = 1
+    if sc.get('consumer_fails_at'):
+        out.probes['a_consumer_failed_during_the_run'] = 1
     out.events = runs
     return out
 
@@ -298,7 +317,8 @@ def generate(prop, rng, seed, index, tier):
             chains.append([a, b])
     return {'format': 1, 'family': 'aggstate', 'property': 'C12', 'seed': seed, 'index': index,
             'agg': spec, 'batches': batches, 'chains': chains,
-            'example_rows': rng.choice([0, 0, 1, 2, 3]), 'by_reference': rng.random() < 0.3}
+            'example_rows': rng.choice([0, 0, 1, 2, 3]), 'by_reference': rng.random() < 0.3,
+            'consumer_fails_at': sorted(set(rng.randrange(0, 6) for _ in range(rng.randrange(1, 3)))) if rng.random() < 0.2 else []}
 
 
 def shrink_candidates(sc):
